@@ -30,7 +30,7 @@ ASSUMPTIONS = [
     "typing.Any inside an annotation (type[Any], type[list[Any]]) is outside the statement and never generated",
     "argument-wise subtyping is only asserted for equal arity",
 ]
-REPORT_COUNTERS = ["calls", "calls_passed_generic", "calls_passed_nested", "calls_any", "calls_passed_generic_with_any_argument", "two_type_methods_applicable",
+REPORT_COUNTERS = ["calls", "calls_passed_generic", "calls_passed_nested", "calls_any", "calls_passed_generic_with_any_argument", "refinement_pair_programs", "two_type_methods_applicable",
                    "unique_best_checked", "pos_subtler", "pos_plain_type", "strict_first_posonly", "strict_first_names", "resolve_checked"]
 
 
@@ -39,7 +39,7 @@ def plan(tier):
     return {"cases": n, "params": {}, "timeout_s": 900 if tier == "quick" else 3600,
             "min": {"calls": 20_000, "calls_passed_nested": 1_000, "two_type_methods_applicable": 500,
                     "pos_subtler": 100, "pos_plain_type": 100, "calls_any": 200,
-                    "calls_passed_generic_with_any_argument": 300}}
+                    "calls_passed_generic_with_any_argument": 300, "refinement_pair_programs": 100}}
 
 
 def _gen_alias(rng, classes, depth=0, any_ok=False):
@@ -94,6 +94,29 @@ def gen_case(rng, params, idx):
             first["po"] = True
         methods.append({"mid": i, "pos": [first, {"n": "b", "t": _gen_param(rng, classes, p1)}]})
     calls = []
+    if rng.random() < 0.35:
+        # a refinement pair: two type[...] methods on the same generic of >= 2 arguments that differ in one *earlier*
+        # argument only (a class and a subclass of it), the later arguments identical; the refined alias is passed
+        subs = [(b, s_["name"]) for s_ in hier for b in s_["bases"]] + [("int", "bool"), ("object", "int"), ("object", "str")]
+        P, C = rng.choice(subs)
+        z, w = rng.choice(classes), rng.choice(classes)
+        if rng.random() < 0.5:
+            a1, a2 = ["G", "dict", P, z], ["G", "dict", C, z]
+        else:
+            a1, a2 = ["G", "tuple", P, z, w], ["G", "tuple", C, z, w]
+        if rng.random() < 0.3:
+            a1, a2 = ["G", "list", a1], ["G", "list", a2]
+        for a in (a1, a2):
+            i = len(methods)
+            first = {"n": "a" if strict != "names" else f"a{i % 2}", "t": ["Ty", a]}
+            if strict == "posonly":
+                first["po"] = True
+            methods.append({"mid": i, "pos": [first, {"n": "b", "t": "object"}]})
+        for a in (a2, a2, a1):
+            calls.append([["c", a], rng.choice([["v", 1], ["v", "s"]])])
+        spec_refine = True
+    else:
+        spec_refine = False
     for _ in range(25):
         args = []
         for p in (0.8, 0.3):
@@ -106,7 +129,7 @@ def gen_case(rng, params, idx):
                 args.append(rng.choice([["v", 1], ["v", "s"], ["v", 2.5], ["v", True],
                                         ["i", rng.choice([s["name"] for s in hier])]]))
         calls.append(args)
-    return {"hier": hier, "methods": methods, "calls": calls, "strict_first": strict}
+    return {"hier": hier, "methods": methods, "calls": calls, "strict_first": strict, "refine": spec_refine}
 
 
 def _is_passed(vx):
@@ -157,6 +180,8 @@ def check_case(spec, res):
     aa = o.argument_analysis
     for pos in (0, 1):
         res.count("pos_subtler" if pos in aa.complex_transforms else "pos_plain_type")
+    if spec.get("refine"):
+        res.count("refinement_pair_programs")
     for args in spec["calls"]:
         vals = [T.value(a, env) for a in args]
         res.ev()
